@@ -70,6 +70,10 @@ func init() {
 		c.assume(st, fmt.Sprintf("(forall ((k Int)) (! (=> (not (and (<= %[1]s k) (< k (+ %[1]s %[2]s)))) (= (select %[3]s k) (select %[4]s k))) :pattern ((select %[3]s k))))", off, n, na, old))
 		c.assume(st, fmt.Sprintf("(forall ((k Int)) (! (=> (and (<= 0 k) (< k %[1]s)) (and (<= 0 (select %[2]s k)) (< (select %[2]s k) %[1]s) (= (select %[3]s (select %[2]s k)) k) (= (select %[4]s (+ %[5]s k)) (select %[6]s (+ %[5]s (select %[2]s k)))))) :pattern ((select %[2]s k)) :pattern ((select %[4]s (+ %[5]s k)))))", n, pi, pinv, na, off, old))
 		c.assume(st, fmt.Sprintf("(forall ((k Int)) (! (=> (and (<= 0 k) (< k %[1]s)) (and (<= 0 (select %[2]s k)) (< (select %[2]s k) %[1]s) (= (select %[3]s (select %[2]s k)) k))) :pattern ((select %[2]s k))))", n, pinv, pi))
+		// the same two facts in absolute array positions (the form quantified contract clauses take after index
+		// rewriting): every new element is an old one, and every old element is found again
+		c.assume(st, fmt.Sprintf("(forall ((p Int)) (! (=> (and (<= %[1]s p) (< p (+ %[1]s %[2]s))) (= (select %[3]s p) (select %[4]s (+ %[1]s (select %[5]s (- p %[1]s)))))) :pattern ((select %[3]s p))))", off, n, na, old, pi))
+		c.assume(st, fmt.Sprintf("(forall ((p Int)) (! (=> (and (<= %[1]s p) (< p (+ %[1]s %[2]s))) (= (select %[3]s (+ %[1]s (select %[5]s (- p %[1]s)))) (select %[4]s p))) :pattern ((select %[4]s p))))", off, n, na, old, pinv))
 		if c.ty.SortOf(slt.Elem()) == sInt {
 			// consequence of being a permutation, stated directly to spare the solver the detour through perm:
 			// if no element was nil before, none is nil afterwards
